@@ -1,8 +1,182 @@
-(* Properties/C40.v -- placeholder while the theory is being written. *)
-From Coq Require Import ZArith NArith List Bool.
-From BV Require Import Lib.Bytes Model.Directive Model.BundleSet.
+(* Properties/C40.v -- Bundles and merge directives reproduce the revisions they carry.
+   Statements only.  Models: Model/Directive.v (hand model of MergeDirective2.to_lines /
+   from_lines incl. the RIO-patch layer of bzrformats, of format_patch_date / parse_patch_date,
+   of _verify_patch and of the v4 record names) and Model/BundleSet.v (bundle contents as
+   revision sets over Lib/Dag).  Proofs: Theory/Directive{Date,Rio,Stanza,Codec}.v, Theory/BundleSet.v.
+
+   A directive is the record [directive]; strings are their UTF-8 bytes; the time is
+   (whole seconds, nanoseconds).  [dir_ok] is the executable guard found by the proof:
+     - date_ok: offset in whole minutes, |offset| < 24 h, local time within 1970..9999, time <> 0,
+       and a NEGATIVE offset only in whole hours (parse_patch_date adds the minutes of "-0330");
+     - d_nanos = 0 (the format keeps whole seconds);
+     - a source branch or a bundle is present, testament_sha1 is present and ASCII;
+     - no line of the patch starts with "# Begin bundle";
+     - every line of every field value neither ends with CR (rio's trim_newline drops it) nor
+       has a backslash unless its escaped RIO line fits the 68 columns (to_patch_lines may cut an
+       escaped backslash in two).
+   Each excluded class has a machine-checked witness below (replayed on the real code by
+   harness/props/c40.py: corpus()). *)
+From Coq Require Import String ZArith NArith List Bool.
+From BV Require Import Lib.Bytes Lib.Obs Lib.Dag Model.OsUtils Model.Directive Model.BundleSet
+  Theory.DirectiveDate Theory.DirectiveRio Theory.DirectiveStanza Theory.DirectiveCodec Theory.BundleSet.
 Import ListNotations.
 
-Theorem C40_placeholder : verify_patch [] [] = true.
-Proof. reflexivity. Qed.
-Print Assumptions C40_placeholder.
+(* ---- the merge-directive codec ---------------------------------------------------------- *)
+(* The full statement "forall d, from_lines (to_lines d) = Ok d" is false of the faithful model
+   (witnesses below); this is the strongest guarded version. *)
+Theorem C40_directive_roundtrip_guarded :
+  forall d, dir_ok d = true -> exists ls, to_lines d = ROk ls /\ from_lines ls = ROk d.
+Proof. exact directive_roundtrip. Qed.
+Print Assumptions C40_directive_roundtrip_guarded.
+
+(* the environment layer on its own: any stanza, any following lines *)
+Theorem C40_stanza_roundtrip_guarded :
+  forall st rest, stanza_ok st = true ->
+    read_patch_stanza (to_patch_lines st ++ TERMINATOR :: rest) = (ROk (Some st), rest).
+Proof. exact read_patch_stanza_roundtrip. Qed.
+Print Assumptions C40_stanza_roundtrip_guarded.
+
+Theorem C40_patch_date_roundtrip_guarded :
+  forall secs offset, date_ok secs offset = true ->
+    exists s, format_patch_date secs offset = Some s /\ parse_patch_date s = Some (secs, offset).
+Proof. exact date_roundtrip. Qed.
+Print Assumptions C40_patch_date_roundtrip_guarded.
+
+(* accepted by the constructor and by to_lines, but not read back as written *)
+Theorem C40_directive_roundtrip_refuted :
+  (exists d, serialises d = true /\ roundtrips d = false /\ d_message d = Some (asc "a" ++ [CR])) /\
+  (exists d, serialises d = true /\ roundtrips d = false /\
+             d_message d = Some (repeat 120%N 58 ++ [BSL] ++ asc "yyyy")) /\
+  (exists d, serialises d = true /\ roundtrips d = false /\ d_timezone d = (-12600)%Z) /\
+  (exists d, serialises d = true /\ roundtrips d = false /\ d_nanos d = 750000000%Z) /\
+  (exists d, serialises d = true /\ roundtrips d = false /\
+             d_patch d = Some (asc "a" ++ [LF] ++ BEGIN_BUNDLE ++ [LF] ++ asc "b" ++ [LF])).
+Proof.
+  split; [eexists; split; [|split]; [apply roundtrip_refuted_cr|apply roundtrip_refuted_cr|reflexivity]|].
+  split; [eexists; split; [|split]; [apply roundtrip_refuted_backslash|apply roundtrip_refuted_backslash|reflexivity]|].
+  split; [eexists; split; [|split]; [apply roundtrip_refuted_negative_minutes|apply roundtrip_refuted_negative_minutes|reflexivity]|].
+  split; [eexists; split; [|split]; [apply roundtrip_refuted_subsecond|apply roundtrip_refuted_subsecond|reflexivity]|].
+  eexists; split; [|split]; [apply roundtrip_refuted_marker|apply roundtrip_refuted_marker|reflexivity].
+Qed.
+Print Assumptions C40_directive_roundtrip_refuted.
+
+Theorem C40_patch_date_refuted :
+  exists secs offset s,
+    Z.rem offset 60 = 0%Z /\ format_patch_date secs offset = Some s /\
+    parse_patch_date s = Some ((secs - 3600)%Z, (offset + 3600)%Z).
+Proof. exact date_negative_minutes_refuted. Qed.
+Print Assumptions C40_patch_date_refuted.
+
+(* read back from a file (the text split at LF): proved by correspondence only; the extra
+   excluded class is a patch without final newline followed by a bundle *)
+Theorem C40_directive_text_roundtrip_partial :
+  (exists d, roundtrips_text d = true /\ d_patch d = Some (asc "+a" ++ [CR; LF] ++ asc "-b" ++ [CR] ++ asc "c" ++ [LF])) /\
+  (exists d, dir_ok d = true /\ roundtrips d = true /\ roundtrips_text d = false).
+Proof.
+  split; [eexists; split; [apply text_roundtrip_example|reflexivity]|].
+  eexists. apply text_roundtrip_refuted_no_final_newline.
+Qed.
+Print Assumptions C40_directive_text_roundtrip_partial.
+
+Example C40_dir_ok_satisfiable :
+  dir_ok base_directive = true /\
+  dir_ok (with_message (asc "caf" ++ [195; 169]%N ++ asc " " ++ repeat 120%N 70 ++ asc " x-y/z  " ++ [LF]
+                        ++ asc "C:\dir\file" ++ [LF; 9%N] ++ asc "tab ")) = true.
+Proof. split; [apply dir_ok_example|apply dir_ok_example_long]. Qed.
+
+(* ---- tampering ------------------------------------------------------------------------------ *)
+(* Full statement "changing any byte of the patch block makes verification fail" is false:
+   _verify_patch normalises line ends and trailing blanks.  Guarded: a changed byte that is not a
+   blank / CR / LF (before and after) is detected, for every patch and every position. *)
+Theorem C40_tamper_detected_guarded :
+  forall p i old new,
+    nth_error p i = Some old -> is_blank old = false -> is_blank new = false -> old <> new ->
+    maybe_verify (Some (set_byte i new p)) p = "failed"%string.
+Proof. exact tamper_byte_detected. Qed.
+Print Assumptions C40_tamper_detected_guarded.
+
+(* more generally: whatever differs outside blanks is detected *)
+Theorem C40_verify_detects :
+  forall stored calculated,
+    strip_ws stored <> strip_ws calculated -> verify_patch stored calculated = false.
+Proof. exact verify_detects. Qed.
+Print Assumptions C40_verify_detects.
+
+Theorem C40_verify_accepts_same : forall p, verify_patch p p = true.
+Proof. exact verify_same. Qed.
+Print Assumptions C40_verify_accepts_same.
+
+Theorem C40_tamper_detected_refuted :
+  exists p i new, set_byte i new p <> p /\ maybe_verify (Some (set_byte i new p)) p = "verified"%string.
+Proof. exact tamper_blank_refuted. Qed.
+Print Assumptions C40_tamper_detected_refuted.
+
+(* bundle records carry the sha1 of their text: over an abstract hash H that is collision-free
+   on the two texts compared, a changed text is refused *)
+Section Hash.
+  Variable H : bytes -> bytes.
+  Theorem C40_record_tamper_detected :
+    forall text text', (text' <> text -> H text' <> H text) -> text' <> text ->
+      install_record H text' (H text) = RErr "BadBundle".
+  Proof. exact (record_tamper_detected H). Qed.
+  Theorem C40_record_accepts_same : forall text, install_record H text (H text) = ROk text.
+  Proof. intros text. unfold install_record. rewrite record_ok_same. reflexivity. Qed.
+End Hash.
+Print Assumptions C40_record_tamper_detected.
+Print Assumptions C40_record_accepts_same.
+
+(* ---- v4 record names ------------------------------------------------------------------------ *)
+Theorem C40_record_name_roundtrip_guarded :
+  forall kind later, names_ok later = true ->
+    decode_names (join [SLASH] (map esc_slash (kind :: later))) = kind :: later.
+Proof. exact decode_names_roundtrip. Qed.
+Print Assumptions C40_record_name_roundtrip_guarded.
+
+Theorem C40_record_name_refuted :
+  exists r f, encode_name (asc "file") (Some r) (Some f) = ROk (asc "file/r1///x") /\
+              decode_name (asc "file/r1///x") <> (asc "file", Some r, Some f).
+Proof. exact record_name_refuted. Qed.
+Print Assumptions C40_record_name_refuted.
+
+(* ---- bundle contents as a set (P-spec) ---------------------------------------------------- *)
+(* P = what a repository stores for a revision (parents, inventory, texts, metadata: what the
+   testament attests); pay = the source repository's payload.  install (bundle ...) into a
+   repository that has the base's present ancestry is, as a finite map, what fetch gives. *)
+Theorem C40_install_eq_fetch :
+  forall (P : Type) (pay : revid -> P) g base tgt (s : store P),
+    base_closed g base s ->
+    forall r, lookup (install (bundle P pay g base tgt) s) r = lookup (fetch P pay g s tgt) r.
+Proof. exact install_eq_fetch. Qed.
+Print Assumptions C40_install_eq_fetch.
+
+Theorem C40_install_complete :
+  forall (P : Type) (pay : revid -> P) g base tgt (s : store P),
+    base_closed g base s ->
+    forall a, In a (ancestors g [tgt]) -> present g a = true ->
+              lookup (install (bundle P pay g base tgt) s) a <> None.
+Proof. exact install_complete. Qed.
+Print Assumptions C40_install_complete.
+
+Theorem C40_install_payloads :
+  forall (P : Type) (pay : revid -> P) g base tgt (s : store P) r,
+    lookup (install (bundle P pay g base tgt) s) r =
+    match lookup s r with
+    | Some x => Some x
+    | None => if memb r (bundle_ids g base tgt) then Some (pay r) else None
+    end.
+Proof. exact install_payloads. Qed.
+Print Assumptions C40_install_payloads.
+
+Theorem C40_install_without_base_refuted :
+  exists g base tgt r,
+    lookup (install (bundle nat (fun x => x) g base tgt) []) r = None /\
+    lookup (fetch nat (fun x => x) g [] tgt) r = Some r.
+Proof. exact install_without_base_refuted. Qed.
+Print Assumptions C40_install_without_base_refuted.
+
+Example C40_install_satisfiable :
+  let g := [[]; [0]; [0]; [1; 2]; [3]] in
+  let s := store_of [0; 2] in
+  base_closedb g (Some 2) s = true /\
+  sort_ids (map fst (install (bundle nat (fun x => x) g (Some 2) 4) s)) = [0; 1; 2; 3; 4].
+Proof. exact install_example. Qed.
